@@ -107,6 +107,7 @@ func main() {
 		}
 	}
 	cliAmbient(r)
+	cliPassphrases(r)
 	if n := r.Counter("premise_failures_unexplained"); n > 0 {
 		r.Inconclusive("%d cases whose premise could not be established or explained", n)
 	}
